@@ -444,13 +444,17 @@ fn run_program(d: &DState, src: &str, args: &[&str]) -> String {
                 let mut extra = String::new();
                 if want_heap {
                     let s = it.verif_snapshot();
+                    // dupL / dupR: slots that sit on a free list more than once (reclaimed twice: C08 "each exactly once")
+                    let dups = |v: &Vec<usize>| { let mut w = v.clone(); w.sort(); w.dedup(); v.len() - w.len() };
                     extra = format!(
-                        " nlists={} nfreeL={} nrecords={} nfreeR={} colls={}",
+                        " nlists={} nfreeL={} nrecords={} nfreeR={} colls={} dupL={} dupR={}",
                         s.lists.len(),
                         s.free_lists.len(),
                         s.records.len(),
                         s.free_records.len(),
-                        s.native_collections + s.forced_collections
+                        s.native_collections + s.forced_collections,
+                        dups(&s.free_lists),
+                        dups(&s.free_records)
                     );
                 }
                 ("ok".to_string(), extra)
